@@ -13,6 +13,7 @@ Local Open Scope Z_scope.
 Record hist := {
   nextc : Z;                   (* number of the next submission call *)
   callno : Z -> Z;             (* the current (or last) call of each thread; -1 = none yet *)
+  caller : Z -> Z;             (* the thread that made each call *)
   returned : list Z;           (* calls that have returned *)
   pre : Z -> list Z;           (* pre b = the calls that had returned when call b began *)
   glst : list Z;               (* the call each element of the list belongs to (parallel to lst) *)
@@ -23,24 +24,24 @@ Record hist := {
 }.
 
 Definition h0 : hist :=
-  {| nextc := 0; callno := fun _ => -1; returned := []; pre := fun _ => []; glst := []; gcur := None; grun := None;
+  {| nextc := 0; callno := fun _ => -1; caller := fun _ => 0; returned := []; pre := fun _ => []; glst := []; gcur := None; grun := None;
      started := []; finished := [] |}.
 
 Definition h_call (h : hist) (t : Z) : hist :=
-  {| nextc := nextc h + 1; callno := upd (callno h) t (nextc h); returned := returned h;
+  {| nextc := nextc h + 1; callno := upd (callno h) t (nextc h); caller := upd (caller h) (nextc h) t; returned := returned h;
      pre := upd (pre h) (nextc h) (returned h); glst := glst h; gcur := gcur h; grun := grun h; started := started h;
      finished := finished h |}.
 Definition h_ret (h : hist) (t : Z) : hist :=
-  {| nextc := nextc h; callno := callno h; returned := callno h t :: returned h; pre := pre h; glst := glst h;
+  {| nextc := nextc h; callno := callno h; caller := caller h; returned := callno h t :: returned h; pre := pre h; glst := glst h;
      gcur := gcur h; grun := grun h; started := started h; finished := finished h |}.
 Definition h_list (h : hist) (g : list Z) (c : option Z) : hist :=
-  {| nextc := nextc h; callno := callno h; returned := returned h; pre := pre h; glst := g; gcur := c; grun := grun h;
+  {| nextc := nextc h; callno := callno h; caller := caller h; returned := returned h; pre := pre h; glst := g; gcur := c; grun := grun h;
      started := started h; finished := finished h |}.
 Definition h_begin (h : hist) (c : option Z) (b : Z) : hist :=
-  {| nextc := nextc h; callno := callno h; returned := returned h; pre := pre h; glst := glst h; gcur := c;
+  {| nextc := nextc h; callno := callno h; caller := caller h; returned := returned h; pre := pre h; glst := glst h; gcur := c;
      grun := Some b; started := b :: started h; finished := finished h |}.
 Definition h_end (h : hist) (b : Z) : hist :=
-  {| nextc := nextc h; callno := callno h; returned := returned h; pre := pre h; glst := glst h; gcur := gcur h;
+  {| nextc := nextc h; callno := callno h; caller := caller h; returned := returned h; pre := pre h; glst := glst h; gcur := gcur h;
      grun := None; started := started h; finished := b :: finished h |}.
 
 (* what one action of thread t does to the history *)
